@@ -61,11 +61,11 @@ package base
 //@   arith bv
 //@   props C03, C11
 //@   requires !isnil(p)
-//@   assert call 5 fid == 1 && ftyp == 11
-//@   assert call 6 fid == 2 && ftyp == 11
-//@   assert call 9 fid == 3 && ftyp == 11
-//@   assert call 10 fid == 6 && ftyp == 13
-//@   assert call 11 !((fid == 1 || fid == 2 || fid == 3) && ftyp == 11) && !(fid == 6 && ftyp == 13)
+//@   assert call ReadString#1 fid == 1 && ftyp == 11
+//@   assert call ReadString#2 fid == 2 && ftyp == 11
+//@   assert call ReadString#3 fid == 3 && ftyp == 11
+//@   assert call ReadMapBegin#1 fid == 6 && ftyp == 13
+//@   assert call Skip#1 !((fid == 1 || fid == 2 || fid == 3) && ftyp == 11) && !(fid == 6 && ftyp == 13)
 //@   ensures err == nil ==> 1 <= off && off <= len(b) && b[off-1] == 0
 //@   assigns p.LogID, p.Caller, p.Addr, p.Extra
 //@   loop 1 invariant 0 <= off && off <= len(b) && err == nil
@@ -112,10 +112,10 @@ package base
 //@   arith bv
 //@   props C03, C11
 //@   requires !isnil(p)
-//@   assert call 5 fid == 1 && ftyp == 11
-//@   assert call 6 fid == 2 && ftyp == 8
-//@   assert call 9 fid == 3 && ftyp == 13
-//@   assert call 10 !(fid == 1 && ftyp == 11) && !(fid == 2 && ftyp == 8) && !(fid == 3 && ftyp == 13)
+//@   assert call ReadString#1 fid == 1 && ftyp == 11
+//@   assert call ReadI32#1 fid == 2 && ftyp == 8
+//@   assert call ReadMapBegin#1 fid == 3 && ftyp == 13
+//@   assert call Skip#1 !(fid == 1 && ftyp == 11) && !(fid == 2 && ftyp == 8) && !(fid == 3 && ftyp == 13)
 //@   ensures err == nil ==> 1 <= off && off <= len(b) && b[off-1] == 0
 //@   assigns p.StatusMessage, p.StatusCode, p.Extra
 //@   loop 1 invariant 0 <= off && off <= len(b) && err == nil
